@@ -152,6 +152,21 @@ func mergeToWriter(segments []*SegmentBase, drops []*roaring.Bitmap,
 				return nil, 0, 0, nil, nil, 0, err
 			}
 		}
+	} else {
+		// no document survives the merge: every input document maps to
+		// docDropped, and the output is laid out exactly like a segment
+		// built from an empty batch (only the _id field record), since no
+		// stored or section data is written that the other fields' records
+		// could point to
+		newDocNums = make([][]uint64, len(segments))
+		for segI, segment := range segments {
+			newDocNums[segI] = make([]uint64, segment.numDocs)
+			for docNum := range newDocNums[segI] {
+				newDocNums[segI][docNum] = docDropped
+			}
+		}
+		fieldsInv = fieldsInv[:1]
+		fieldsMap = mapFields(fieldsInv)
 	}
 
 	// we can persist the fields section index now, this will point
